@@ -581,7 +581,7 @@ Section InstallProofs.
   Lemma install_int_code fs im : forall w, code_nonzero (fst (install_int ed fs im w)).
   Proof.
     induction fs as [|[s d] r IH]; intro w; cbn [install_int]; [exact I|].
-    destruct (fault_of K_STAT s (w_faults w)); [cbn; discriminate|].
+    destruct (fault_of K_STAT (basename s) (w_faults w)); [cbn; discriminate|].
     destruct (assoc s (w_src w)) as [k|]; [|cbn; discriminate].
     destruct (match fault_of K_UNLINK (basename d) (w_faults w) with
               | Some e => Some e
@@ -591,7 +591,7 @@ Section InstallProofs.
     - destruct (fault_of K_UNLINK (basename d) (w_faults w)); [discriminate|].
       destruct (match fault_of K_COPY (basename d) (w_faults w) with
                 | Some e => inr e
-                | None => match k with SFile cid => inl cid | SDir => inr 21 end
+                | None => match k with SFile cid => inl cid | SDir _ => inr 21 end
                 end) as [cid|e]; [|cbn; discriminate].
       destruct im; try apply IH.
       destruct (fault_of K_CHMOD (basename d) (w_faults w)); [cbn; discriminate|apply IH].
@@ -613,12 +613,17 @@ Section InstallProofs.
   Lemma finish_code a : code_nonzero (fst a) -> hcode_nonzero (fst (finish a)).
   Proof. destruct a as [[e|] w]; cbn; auto. Qed.
 
-  Lemma fold_dirs_code dm under : forall (l : list str) a,
+  Lemma install_tree_code dest im dm d w : code_nonzero (fst (install_tree ed ext_effect dest im dm d w)).
+  Proof.
+    unfold install_tree. apply then_code; [apply install_dirs_code|].
+    intro w1. destruct (kids_of w1 d); [exact I|apply install_files_code].
+  Qed.
+  Lemma fold_dirs_code dest im dm : forall (l : list str) a,
     code_nonzero (fst a) ->
-    code_nonzero (fst (fold_left (fun acc d => then_ acc (install_dirs ed ext_effect [under d] dm)) l a)).
+    code_nonzero (fst (fold_left (fun acc d => then_ acc (install_tree ed ext_effect dest im dm d)) l a)).
   Proof.
     induction l as [|x l IH]; intros a Ha; cbn [fold_left]; [assumption|].
-    apply IH. apply then_code; [assumption|intro; apply install_dirs_code].
+    apply IH. apply then_code; [assumption|intro; apply install_tree_code].
   Qed.
 
   Lemma install_run_code has_r de recursive targets dest im dm w :
@@ -687,7 +692,7 @@ Section InstallProofs.
   Proof.
     induction fs as [|[s d] fs IH]; intros w r w'; cbn [install_int].
     - intro H; inversion H; auto.
-    - destruct (fault_of K_STAT s (w_faults w)); [intro H; inversion H; auto|].
+    - destruct (fault_of K_STAT (basename s) (w_faults w)); [intro H; inversion H; auto|].
       destruct (assoc s (w_src w)) as [k|]; [|intro H; inversion H; auto].
       destruct (match fault_of K_UNLINK (basename d) (w_faults w) with
                 | Some e => Some e
@@ -695,7 +700,7 @@ Section InstallProofs.
                 end); [intro H; inversion H; auto|].
       destruct (match fault_of K_COPY (basename d) (w_faults w) with
                 | Some e => inr e
-                | None => match k with SFile cid => inl cid | SDir => inr 21 end
+                | None => match k with SFile cid => inl cid | SDir _ => inr 21 end
                 end) as [cid|e]; [|intro H; inversion H; auto].
       destruct im; try (intro H; apply IH in H; cbn in H; exact H).
       destruct (fault_of K_CHMOD (basename d) (w_faults w)); [intro H; inversion H; auto|].
@@ -709,7 +714,7 @@ Section InstallProofs.
   Proof.
     induction fs as [|[s0 d0] fs IH]; intros w w' Hinj Hrun s d Hin; [destruct Hin|].
     cbn [install_int] in Hrun.
-    destruct (fault_of K_STAT s0 (w_faults w)); [discriminate|].
+    destruct (fault_of K_STAT (basename s0) (w_faults w)); [discriminate|].
     destruct (assoc s0 (w_src w)) as [k|] eqn:Ek; [|discriminate].
     destruct (match fault_of K_UNLINK (basename d0) (w_faults w) with
               | Some e => Some e
@@ -717,7 +722,7 @@ Section InstallProofs.
               end); [discriminate|].
     destruct (match fault_of K_COPY (basename d0) (w_faults w) with
               | Some e => inr e
-              | None => match k with SFile cid => inl cid | SDir => inr 21 end
+              | None => match k with SFile cid => inl cid | SDir _ => inr 21 end
               end) as [cid|e] eqn:Ecp; [|discriminate].
     assert (Hk : k = SFile cid).
     { destruct (fault_of K_COPY (basename d0) (w_faults w)); [discriminate|].
@@ -757,7 +762,7 @@ Section InstallProofs.
                    img_get (comps d0) (w_img w3) = img_get (comps d0) (w_img w2)).
         { clear. induction fs' as [|[s d] fs' IH']; intros w2 w3 H Hn; cbn [install_int] in H.
           - now inversion H.
-          - destruct (fault_of K_STAT s (w_faults w2)); [discriminate|].
+          - destruct (fault_of K_STAT (basename s) (w_faults w2)); [discriminate|].
             destruct (assoc s (w_src w2)) as [k|]; [|discriminate].
             destruct (match fault_of K_UNLINK (basename d) (w_faults w2) with
                       | Some e => Some e
@@ -765,7 +770,7 @@ Section InstallProofs.
                       end); [discriminate|].
             destruct (match fault_of K_COPY (basename d) (w_faults w2) with
                       | Some e => inr e
-                      | None => match k with SFile cid => inl cid | SDir => inr 21 end
+                      | None => match k with SFile cid => inl cid | SDir _ => inr 21 end
                       end) as [cid|e]; [|discriminate].
             assert (Hne : comps d0 <> comps d) by (intro E; apply Hn; left; now rewrite E).
             assert (Hn' : ~ In (comps d0) (map (fun p => comps (snd p)) fs')) by (intro; apply Hn; now right).
